@@ -181,6 +181,10 @@ def plant_container_level(doc, dia, r):
         for k, e in enumerate(elems):
             tag = "%s/%s" % (where, "first" if k == 0 else ("last" if k == len(elems) - 1 else "mid"))
             if e[0] == "item":
+                # a loop whose ONLY header name repeats this item (any spelling): the name is dropped, the loop is left without
+                # names, its values are dropped, and the parse goes on behind it
+                yield ("dup_header_all/" + tag, with_elems(doc, path, elems[:k + 1] + [("loop", [("mark", variant(e[1], r))], [[S("10")], [S("20")], [S("30")]])]
+                                                            + elems[k + 1:]), doc, 41, {}, None)
                 # missing value: a synthetic unknown value
                 yield ("missing_value/" + tag, with_elems(doc, path, elems[:k] + [("noval", e[1])] + elems[k + 1:]),
                        with_elems(doc, path, elems[:k] + [("item", e[1], ("unk",))] + elems[k + 1:]), 133, {}, None)
